@@ -193,6 +193,10 @@ fn oracle_single(rootfd: i32, op: &Op) -> Expect {
                 Expect::Errno(raw(libc::linkat(td.as_raw_fd(), ctn.as_ptr(), d, cname.as_ptr(), 0) as i64))
             }
             "create_file" => {
+                // '.' and '..' cannot be created: the kernel says EISDIR - except that O_PATH makes it ignore O_CREAT and open the
+                // directory / its parent instead, which for the root would be an object outside the root (C03 forbids that):
+                // the reference effect for these two names is the refusal, for every flag set
+                if cname.as_bytes() == b"." || cname.as_bytes() == b".." { return Expect::Errno(libc::EISDIR); }
                 let fl = op.flags.unwrap_or(0) as i32 | libc::O_CREAT | libc::O_NOFOLLOW | libc::O_CLOEXEC | libc::O_NOCTTY;
                 let fd = libc::openat(d, cname.as_ptr(), fl, perm);
                 if fd >= 0 { libc::close(fd); Expect::Errno(0) } else { Expect::Errno(errno()) }
